@@ -24,7 +24,15 @@ def _run(pid):
     for s in specs:
         s["src"] = C.SRC
         s["bits"] = BITS
-    with ThreadPoolExecutor(max_workers=2) as ex:
+    if pid == "C15":
+        # "the observer is exited after all other notifications, also when the run fails / is interrupted" needs: when run returns or
+        # raises -- also on KeyboardInterrupt in the calling thread -- no worker is alive and nothing is running any more
+        s = E2.inst("int_pair_w2", "pair", 2, 30, opts={"interrupt": True}, witnesses=("interrupted",))
+        s["src"] = C.SRC
+        s["bits"] = ["c07_thread_alive_at_return", "c07_inflight_at_return", "c07_running_after_return", "c07_start_after_return", "c07_deadlock",
+                     "c17_interrupt_swallowed", "c17_interrupt_masked"]
+        specs.append(s)
+    with ThreadPoolExecutor(max_workers=3) as ex:
         return specs, list(ex.map(E2.run_instance, specs))
 
 
